@@ -42,12 +42,12 @@ def drv (args : List String) : String :=
       let c : Config := { unix := u == "1", hostname := hn, hostnames := hns, port := port, ports := ports,
                           portFile := pf == "1", pidFile := pidf == "1" }
       let e : Env := { hs := hs, assign := fun i => asg.getD i 0, setOrder := sortDedup, pid := pid }
-      let hyp := s!"q={b01 (decide (InQuantifier c))} so={b01 (decide (SetOrder c hs))} kf={b01 (decide (KernelFresh c e))}"
+      let hyp := s!"q={b01 (decide (InQuantifier c))} so={b01 (decide (SetOrder c hs))}"
       match setup c e { portFile := none, pidFile := none, unixPath := false } with
       | .failed err fs => s!"exc {errStr err} {hyp} {fsStr fs}"
       | .started st =>
         let dn := shutdown c st
-        s!"ok {hyp} pool={poolStr st.pool} port={st.flagsPort} ports={natsStr st.flagsPorts} {fsStr st.fs} | down pool={poolStr dn.pool} {fsStr dn.fs}"
+        s!"ok {hyp} kf={b01 (decide (KernelFresh c e))} pool={poolStr st.pool} port={st.flagsPort} ports={natsStr st.flagsPorts} {fsStr st.fs} | down pool={poolStr dn.pool} {fsStr dn.fs}"
     | _, _, _, _, _, _, _ => "bad-op"
   | _ => "bad-op"
 
